@@ -16,6 +16,7 @@ import (
 	"time"
 
 	"github.com/hprose/hprose-golang/v3/rpc/core"
+	"github.com/hprose/hprose-golang/v3/rpc/plugins/oneway"
 
 	"verif/harness/peers"
 	"verif/harness/rpcenv"
@@ -840,6 +841,61 @@ func c11ClientFaults(t *tr.Writer, c callsCase) {
 		// the client stays usable: a well-formed answer is delivered afterwards
 		k2, d2 := answer(func(r peers.Request) { p.Respond(r.Conn, r.Index, []byte("R42z")) })
 		t.Emit(tr.Rec{"ev": "sentinel", "where": "same-client-after-response-" + name, "ok": k2 == "ok", "detail": d2})
+	}
+	// one-way calls (plugins/oneway) run in a goroutine of the plugin's own after the caller has returned:
+	// whatever goes wrong there - a malformed answer, a panic below the plugin - stays there
+	ow := core.NewClient(p.URL)
+	ow.Timeout = 300 * time.Millisecond
+	defer ow.Abort()
+	boom := false
+	ow.Use(oneway.Oneway{})
+	ow.Use(core.IOHandler(func(ctx context.Context, request []byte, next core.NextIOHandler) ([]byte, error) {
+		if boom {
+			panic("a plugin below the one-way plugin panics")
+		}
+		return next(ctx, request)
+	}))
+	var proxy struct {
+		Ok func(x int) error `context:"oneway"`
+	}
+	ow.UseService(&proxy)
+	for _, name := range []string{"oneway-malformed-body", "oneway-error-frame", "oneway-plugin-panic", "oneway-no-answer"} {
+		t.Emit(tr.Rec{"ev": "fault", "what": name})
+		boom = name == "oneway-plugin-panic"
+		done := make(chan error, 1)
+		go func() {
+			defer func() {
+				if pp := recover(); pp != nil {
+					done <- fmt.Errorf("CALLER-PANIC %v", pp)
+				}
+			}()
+			done <- proxy.Ok(41)
+		}()
+		if r, ok := p.Next(300 * time.Millisecond); ok {
+			switch name {
+			case "oneway-malformed-body":
+				p.Respond(r.Conn, r.Index, []byte("Ra99999999999{"))
+			case "oneway-error-frame":
+				p.RespondError(r.Conn, r.Index, []byte("boom"))
+			}
+		}
+		kind, detail := "hang", ""
+		select {
+		case err := <-done:
+			kind = "error" // the caller of a one-way call learns nothing: any return is fine, a panic is not
+			if err != nil {
+				detail = err.Error()
+				if strings.HasPrefix(detail, "CALLER-PANIC") {
+					kind = "callerpanic"
+				}
+			}
+		case <-time.After(4 * time.Second):
+		}
+		t.Emit(tr.Rec{"ev": "faultret", "what": name, "kind": kind, "detail": detail})
+		boom = false
+		time.Sleep(350 * time.Millisecond) // the background call has ended one way or the other
+		k2, d2 := answer(func(r peers.Request) { p.Respond(r.Conn, r.Index, []byte("R42z")) })
+		t.Emit(tr.Rec{"ev": "sentinel", "where": "other-client-after-" + name, "ok": k2 == "ok", "detail": d2})
 	}
 }
 
